@@ -343,7 +343,20 @@ func TestC06FirstDKG(t *testing.T) {
 		for i, j := range perm {
 			listed[i] = nodes[j].Part
 		}
+		// The DKG protocol is synchronous: what one node receives within a phase (2 s here) every node must receive within that
+		// phase. The generated schedules stay within that bound (<= 1.05 s), but a starved machine can add seconds. A disagreement
+		// seen in a run in which some bundle actually took longer than 60% of a phase is outside the protocol's assumption
+		// and counts as inconclusive (the bundles of a node that is slow ON PURPOSE by 5 s are not counted).
 		fail := func(v *viol) {
+			except := ""
+			if del.SlowMs >= 5000 && del.SlowNode >= 0 && del.SlowNode < len(addrs) {
+				except = addrs[del.SlowNode]
+			}
+			if lat := bus.MaxBundleLatency(except); lat > 1200*time.Millisecond {
+				rec.Inconclusive(desc)
+				rec.Label("synchrony-exceeded-by-machine-load")
+				return
+			}
 			rec.Violation(rt, v.key, v.detail+" || case: "+desc, map[string]any{"case": desc})
 		}
 		genesis := time.Now().Add(20 * time.Second)
@@ -494,6 +507,11 @@ func TestC06Reshare(t *testing.T) {
 		}
 		bus.Policy = del.policy(seed, addrs)
 		fail := func(v *viol) bool {
+			if lat := bus.MaxBundleLatency(""); lat > 1200*time.Millisecond && v.key != "C06/reshare-transition-time-differs" {
+				rec.Inconclusive(desc)
+				rec.Label("synchrony-exceeded-by-machine-load")
+				return false
+			}
 			return rec.Violation(rt, v.key, v.detail+" || case: "+desc, map[string]any{"case": desc})
 		}
 		// listing order of each list is permuted
